@@ -27,7 +27,8 @@ ASSUMPTIONS = [
 TIMEOUT = {'quick': 1500, 'thorough': 10800}
 WORKERS = 10
 ARRANGEMENTS = ('same-dir', 'subdirs-I', 'other-cwd-relative', 'absolute', 'include-twice', 'dotdot-include',
-                'dot-slash-include', 'absolute-include', 'I-subpath-nested')
+                'dot-slash-include', 'absolute-include', 'I-subpath-nested', 'files-named-like-types',
+                'declaration-less-file')
 
 
 def shards(ctx):
@@ -64,8 +65,10 @@ def collide_names(sch):
         return
 
 
-def make_split(sch, rng, twice=False):
-    """-> list of (filename, [def names], [included filenames])"""
+def make_split(sch, rng, twice=False, like_types=False, stub=False):
+    """-> list of (filename, [def names], [included filenames])
+    like_types: a file is called after the first definition it holds (N3.prophy defines N3 ...);
+    stub: a file without any declaration (a comment only) is included by every other file, first."""
     names = [d.name for d in sch.defs]
     k = rng.randint(2, min(5, len(names)))
     cuts = sorted(rng.sample(range(1, len(names)), k - 1))
@@ -81,15 +84,22 @@ def make_split(sch, rng, twice=False):
             for dep in true_deps(sch, sch.by_name[n]):
                 if where[dep] != i:
                     need.add(where[dep])
-        inc = ['f%d.prophy' % j for j in sorted(need)]
+        fname = (lambda j: '%s.prophy' % parts[j][0]) if like_types else (lambda j: 'f%d.prophy' % j)
+        inc = [fname(j) for j in sorted(need)]
         if twice and inc:
             inc = inc + [inc[0]]
         rng.shuffle(inc)
-        files.append(('f%d.prophy' % i, p, inc))
+        if stub:
+            inc = ['stub.prophy'] + inc
+        files.append((fname(i), p, inc))
+    if stub:
+        files.insert(0, ('stub.prophy', [], []))
     return files
 
 
 def file_text(sch, part, incs, prefix=lambda f: f):
+    if not part and not incs:
+        return '// kept for old include lines; nothing is declared here any more\n'
     return ''.join('#include "%s"\n' % prefix(f) for f in incs) + sch.to_prophy(only=set(part))
 
 
@@ -118,7 +128,8 @@ def model_layouts(nodes):
 
 def run_case(acc, audit, wd, idx, sch, rng, arrangement, want_cpp, seed):
     w = W.Wire(sch)
-    files = make_split(sch, rng, twice=(arrangement == 'include-twice'))
+    files = make_split(sch, rng, twice=(arrangement == 'include-twice'),
+                       like_types=(arrangement == 'files-named-like-types'), stub=(arrangement == 'declaration-less-file'))
     root = os.path.join(wd, 'c%d' % idx)
     os.makedirs(root)
     # --- single-file build
